@@ -12,7 +12,7 @@ TokDocs == {Doc(ts, crlf, final) : ts \in TokSeqs(MaxToks, Toks), crlf \in BOOLE
 ByteDocs == SeqsUpTo(ByteAlphabet, MaxBytes)
 
 \* values = line sequences over {"", "a", " b"} with or without a trailing newline
-LineChoices == {<<>>, <<97>>, <<SP, 98>>, <<11, 101>>, <<HASH, 120>>}
+LineChoices == {<<>>, <<97>>, <<SP, 98>>, <<11, 101>>, <<HASH, 120>>, <<37, 100, 37>>}          \* ..., "%d%"
 LineSeqs == UNION {[1..n -> LineChoices] : n \in 1..3}
 Values == {Join(ls, <<LF>>) \o t : ls \in LineSeqs, t \in {<<>>, <<LF>>}}
 SmallValues == {<<>>, <<97>>, <<97, LF>>, <<97, LF, LF, 98>>, <<97, LF, SP, 98, LF>>, <<LF, 97>>, <<97, LF, LF, LF, 98, LF>>, <<SP, 98>>}
